@@ -132,6 +132,7 @@ StepProvider(e) ==
   /\ Check(VersionOf(B) = 0, "file_version_zero")
   /\ Check(idSet = canon \cup aliasSet /\ Len(e.ids) = Cardinality(idSet), "provider_ids_are_canonical_ids_plus_aliases")
   /\ Check(\A k \in 1..(Len(e.ids) - 1) : LexLt(e.ids[k], e.ids[k + 1]), "provider_ids_sorted")
+  /\ (Has(e, "ids_unchanged") => Check(e.ids_unchanged, "provider_ids_are_the_same_after_lookups"))
   /\ Check(e.aliases_ok, "alias_yields_canonical_data_under_alias_id")
   /\ Check(e.validate_ok, "file_passes_its_own_validation")
   /\ Check(e.unknown_ok, "unknown_id_not_found")
